@@ -737,6 +737,34 @@ class Processor:
         """
         self._delete_nodes(gathered_nodes)
 
+    def _refuse_root_deletion(self, delete_nodes: List[NodeCoords]) -> None:
+        """
+        Raise when any node to delete is the document root.
+
+        Parameters:
+        1. delete_nodes (List[NodeCoords]) The nodes to delete.
+
+        Raises:
+        - `NoDocumentYAMLPathException` when the operation would destroy the
+           entire document
+        """
+        for delete_nc in delete_nodes:
+            node = delete_nc.node
+            if (isinstance(node, list) and len(node) > 0
+                    and isinstance(node[0], NodeCoords)):
+                self._refuse_root_deletion(node)
+            elif isinstance(node, NodeCoords):
+                self._refuse_root_deletion([node])
+            elif not isinstance(delete_nc.parent, (
+                CommentedMap, dict, CommentedSeq, list, CommentedSet, set
+            )):
+                raise NoDocumentYAMLPathException(
+                    "Refusing to delete the entire document!  Ensure the"
+                    " source document is YAML, JSON, or compatible and the"
+                    " target nodes do not include the document root.",
+                    str(delete_nc.path)
+                )
+
     def _delete_nodes(self, delete_nodes: List[NodeCoords]) -> None:
         """
         Recursively delete specified nodes.
@@ -748,6 +776,11 @@ class Processor:
         - `YAMLPathException` when the operation would destroy the entire
            document
         """
+        # Refuse before deleting anything when the document root is among the
+        # nodes; otherwise, the nodes gathered after it would already be gone
+        # by the time the root is reached and refused.
+        self._refuse_root_deletion(delete_nodes)
+
         # pylint: disable=locally-disabled,too-many-nested-blocks
         for delete_nc in reversed(delete_nodes):
             node = delete_nc.node
